@@ -170,7 +170,7 @@ def is_ipmg(c):
 
 
 def case_from(c, n, twopass, cnt, **kw):
-    if n > 16 and is_ipmg(c) and not kw.get("keep_ipmg"):
+    if n >= 8 and is_ipmg(c) and not kw.get("keep_ipmg"):
         # excluded by construction (streams of a few dozen pictures stall): the intra period is doubled
         c["intra_period_length"] = 2 * (c["intra_period_length"] + 1) - 1
         c["__excluded__"] = list(c.get("__excluded__", [])) + ["IPMG"]
